@@ -227,6 +227,17 @@ def confirm(replay, verbose=False):
                 for k, w, _ in v:
                     print(" ", k, "—", w)
             return {k for k, _, _ in v}
+        if replay["kind"] == "sa":
+            old_mc = mcx._worker_mc
+            mcx._worker_mc = mc
+            try:
+                v, _ = work_sa([replay["ops"]])
+            finally:
+                mcx._worker_mc = old_mc
+            if verbose:
+                for k, w, _ in v:
+                    print(" ", k, "—", w)
+            return {k for k, _, _ in v}
         if replay["kind"] == "la":
             old_mc = mcx._worker_mc
             mcx._worker_mc = mc
@@ -634,6 +645,58 @@ def work_defs(item):
         out.append((f"C10|history|definitions|{parts[2]}|{parts[3]}|{parts[4]}", w, dict(rp, kind="defs")))
     return out, counts["defpair_comparisons"]
 
+# ---------------------------------------------------------------------------------------------
+# style-availability mini-family: languages that lack a style (zh-tw ships no ClearSpeak) and style names nobody ships make the library
+# fall back to another rule file; what was fallen back to must not outlive the preference values that caused it
+
+SA_OPS = [["pref", "Language", "en"], ["pref", "Language", "zh-tw"], ["pref", "Language", "es"], ["pref", "SpeechStyle", "ClearSpeak"],
+          ["pref", "SpeechStyle", "SimpleSpeak"], ["pref", "SpeechStyle", "MathSpeak"]]
+SA_OPS_MORE = [["pref", "Language", "sv"], ["pref", "Language", "en-gb"]]
+SA_EXPR = "<math><mfrac><mrow><mi>a</mi><mo>+</mo><mi>b</mi></mrow><mi>c</mi></mfrac><mo>+</mo><msup><mi>x</mi><mn>2</mn></msup><mo>+</mo><mroot><mi>y</mi><mn>3</mn></mroot></math>"
+
+
+def sa_reference(h):
+    lang = style = None
+    for op in h:
+        if op[0] == "pref" and op[1] == "Language":
+            lang = op[2]
+        elif op[0] == "pref" and op[1] == "SpeechStyle":
+            style = op[2]
+    return ([["pref", "SpeechStyle", style]] if style else []) + ([["pref", "Language", lang]] if lang else [])
+
+
+def sa_histories(tier):
+    ops = SA_OPS + (SA_OPS_MORE if tier == "thorough" else [])
+    out = []
+    for n in range(1, 5):
+        for seq in itertools.product(range(len(ops)), repeat=n):
+            if any(seq[i] == seq[i + 1] for i in range(len(seq) - 1)):
+                continue
+            out.append([ops[i] for i in seq] + [["mathml", SA_EXPR], ["speech"], ["overview"]])
+    return out
+
+
+def work_sa(hists):
+    mc = mcx.worker_mc()
+    setup = [["rules_dir", mcx.RULES], ["pref", "TTS", "none"]]
+    refs = [sa_reference(h) + h[-3:] for h in hists]
+    _, got = mc.run_cases(setup, hists, fresh=True)
+    uniq = sorted({json.dumps(r, ensure_ascii=False) for r in refs})
+    _, rr = mc.run_cases(setup, [json.loads(u) for u in uniq], fresh=True)
+    rmap = {u: tuple(obs_norm(x) for x in r[-3:]) for u, r in zip(uniq, rr)}
+    viol = []
+    for h, a, r in zip(hists, got, refs):
+        x = tuple(obs_norm(z) for z in a[-3:])
+        y = rmap[json.dumps(r, ensure_ascii=False)]
+        if x != y:
+            k = 0 if x[0] != y[0] else 1 if x[1] != y[1] else 2
+            what = ("canonical", "speech", "overview")[k]
+            viol.append((f"C10|history|style-availability|{what}|state:{'+'.join(o[1] + '=' + o[2] for o in r[:-3])}",
+                         f"call history [{', '.join(o[1] + '=' + o[2] for o in h[:-3])}, set_mathml, speech, overview]: {what} is {short(x[k], 130)} but "
+                         f"[{', '.join(o[1] + '=' + o[2] for o in r[:-3])}] in a fresh session gives {short(y[k], 130)}", {"kind": "sa", "ops": h}))
+    return viol, len(hists)
+
+
 
 def _dispatch(job):
     if job[0] == "I":
@@ -642,6 +705,8 @@ def _dispatch(job):
         return ("F",) + work_defs(job[1:])
     if job[0] == "L":
         return ("L",) + work_la(job[1])
+    if job[0] == "A":
+        return ("A",) + work_sa(job[1])
     if job[0] == "P":
         return ("P",) + work_sep(job[1])
     if job[0] == "E":
@@ -865,6 +930,13 @@ def main(tier):
     lh = la_histories(tier)
     run.count("language_auto_histories", len(lh))
     for out in mcx.pmap(_dispatch, [("L", lh[i:i + 60]) for i in range(0, len(lh), 60)]):
+        _, viol, n = out
+        run.merge_violations(viol)
+        run.count("evaluations", n)
+        transitions += n * 5
+    ah = sa_histories(tier)
+    run.count("style_availability_histories", len(ah))
+    for out in mcx.pmap(_dispatch, [("A", ah[i:i + 40]) for i in range(0, len(ah), 40)]):
         _, viol, n = out
         run.merge_violations(viol)
         run.count("evaluations", n)
